@@ -127,7 +127,96 @@ def rule_no_mut_self(ctx, prog, adts, rule="R11", allow=()):
     return n
 
 
+def position_source(prog, body, e):
+    """where an operand of a per-axis call comes from, *with the position it is taken at*:
+       → (producer body, collection root expr, position id) or None.
+    Position ids: ("trav", <iterator expr>) for a component of the item of one traversal (zip / enumerate item), or for
+    `C[k]` with k the enumerate counter of that traversal;  ("range", <closure or loop key>) for `C[k]` with k the item of a
+    range traversal `0..n`.  Two operands with the same id are the elements at the same position of their collections."""
+    from . import terms as T
+    from .rules_layout import producer_chain, up
+    e = strip(e)
+    # C[k]
+    x = e
+    for _ in range(3):
+        if isinstance(x, tuple) and x[0] in ("deref", "ref"):
+            x = strip(x[1])
+        elif isinstance(x, tuple) and x[0] == "call" and x[1] in ("clone", "deref", "borrow", "as_ref") and x[3]:
+            x = strip(x[3][0])
+    if isinstance(x, tuple) and x[0] == "index" and len(x) == 3:
+        x = ("call", "index", "", (x[1], x[2]), None)          # built-in slice indexing `s[k]`
+    if isinstance(x, tuple) and x[0] == "call" and x[1] in ("index", "get_unchecked", "uget") and len(x[3]) == 2:
+        coll, k = x[3][0], strip(x[3][1])
+        cb_, ce_ = up(prog, body, coll)
+        rb, re_, chain, bad = producer_chain(prog, cb_, ce_, stop_at_field=True)
+        if bad is not None:
+            return None
+        pid = _position_id(prog, body, k)
+        if pid is None:
+            return None
+        re_ = strip(re_)
+        if isinstance(re_, tuple) and re_[0] == "field":
+            base = strip(re_[1])
+            for _ in range(3):
+                if isinstance(base, tuple) and base[0] in ("deref", "ref"):
+                    base = strip(base[1])
+            if isinstance(base, tuple) and base[0] == "upvar":
+                pb_, pe_ = up(prog, rb, base)
+                re_ = ("field", strip(pe_), re_[2])
+                rb = pb_
+        return rb, re_, pid
+    r = _item_component(prog, body, e)
+    if r is None:
+        return None
+    (rb, re_), it = r
+    return rb, strip(re_), ("trav", repr(strip(it)))
+
+
+def _position_id(prog, body, k):
+    """k is the enumerate counter of a traversal, or the item of a range traversal"""
+    from . import terms as T
+    k = strip(k)
+    r = _item_component(prog, body, k, want_pos=True)
+    if r is not None:
+        return ("trav", repr(strip(r[1])))
+    # range item: closure parameter of map/for_each over a Range, or the item of a `for k in a..b` loop
+    if isinstance(k, tuple) and k[0] == "param" and body.is_closure and k[1] >= 2:
+        site = prog.closure_site(body.key)
+        if site is not None:
+            parent = site[0]
+            for cbb, ct in parent.calls():
+                args = parent.call_arg_exprs(cbb)
+                if any(isinstance(_strip(a), tuple) and _strip(a)[:3] == ("agg", "closure", body.key) for a in args):
+                    src = strip(args[0])
+                    for _ in range(3):
+                        if isinstance(src, tuple) and src[0] == "call" and src[1] in ("into_iter", "iter") and src[3]:
+                            src = strip(src[3][0])
+                    if isinstance(src, tuple) and ((src[0] == "agg" and "Range" in str(src[1])) or (src[0] == "call" and src[1] == "new" and "Range" in src[2])):
+                        return ("range", body.key)
+    if isinstance(k, tuple) and k[0] == "field" and k[2] == "0":
+        x = strip(k[1])
+        if isinstance(x, tuple) and x[0] == "downcast" and isinstance(strip(x[1]), tuple) and strip(x[1])[0] == "call" and strip(x[1])[1] == "next":
+            try:
+                tb = prog.tracked(body)
+                itr = T.Loop(tb).iterator()
+            except Exception:
+                itr = None
+            if itr is not None:
+                src = strip(itr[2])
+                for _ in range(3):
+                    if isinstance(src, tuple) and src[0] == "call" and src[1] in ("into_iter", "iter") and src[3]:
+                        src = strip(src[3][0])
+                if isinstance(src, tuple) and ((src[0] == "agg" and "Range" in str(src[1])) or (src[0] == "call" and src[1] == "new" and "Range" in src[2])):
+                    return ("range", body.key)
+    return None
+
+
 def item_component_source(prog, body, e):
+    r = _item_component(prog, body, e)
+    return None if r is None else r[0]
+
+
+def _item_component(prog, body, e, want_pos=False):
     """an expression that is a component of a closure parameter or of a `for` loop item → (producer body, producer root expr)
     by following the zip structure of the iterator that feeds it; None if it is not such a component"""
     from . import terms as T
@@ -178,51 +267,90 @@ def item_component_source(prog, body, e):
             node = node[int(p_)]
         else:
             break
+    if want_pos:
+        return ((None, None), it) if node == "#pos" else None
     if isinstance(node, str) and node.startswith("e"):
         k = int(node[1:])
         if k < len(prods):
-            return prods[k]
+            return prods[k], it
     return None
 
 
 # ------------------------------------------------------------------------------------------- C13
 
+def _edges_site_check(b, bb, si, s):
+    """the vector stored into Edges{edges} at this aggregate is only ever mutated by sort (dominating) then dedup (dominating the
+    construction): → (ok, detail)"""
+    from .rules_select import peel_coercions
+    v = strip(b.operand_expr(s["rv"]["fields"][0], bb, si))
+    muts = []
+    for cbb, t in b.calls():
+        for a in b.call_arg_exprs(cbb):
+            if isinstance(a, tuple) and a[0] == "ref" and a[2] and peel_coercions(a[1]) == peel_coercions(v):
+                if callee_name(t) in ("deref_mut", "as_mut_slice", "as_mut"):
+                    continue
+                muts.append((cbb, callee_name(t)))
+    names = [m[1] for m in muts]
+    sorts = [m for m in muts if m[1] in ("sort", "sort_unstable")]
+    dedups = [m for m in muts if m[1] == "dedup"]
+    others = [m for m in muts if m not in sorts and m not in dedups]
+    ok = bool(sorts) and bool(dedups) and not others and b.dominates(sorts[0][0], dedups[0][0]) and b.dominates(dedups[0][0], bb) \
+        and v[:2] == ("param", 1)
+    detail = "Edges{edges} is built from the input vector after sort (dominating) then dedup, nothing else mutates it: %s" % names if ok else \
+        "construction of Edges is not dominated by sort then dedup of the same vector (mutating calls: %s; payload `%s`)" % (names, fmt(v))
+    return ok, detail
+
+
+def edges_establishers(prog):
+    """keys of the (non-derive) functions that build an `Edges` value and establish its invariant there: the public From<Vec>
+    constructor today; a private constructor shared by the From impls is the same thing one call further down"""
+    out = []
+    for (b, bb, si) in aggregates_of(prog, "histogram::bins::Edges"):
+        if is_derive(b) or b.is_closure:
+            continue
+        s = b.blocks[bb]["stmts"][si]
+        if _edges_site_check(b, bb, si, s)[0] and b.key not in out:
+            out.append(b.key)
+    return out
+
+
 def rule_edges_constructor(ctx, prog, rule="R11"):
-    b = prog.find("histogram::bins::Edges<A> as std::convert::From<std::vec::Vec<A>>>::from")
-    aggs = [(bb, si, s) for bb, si, s in b.assigns() if s["rv"]["k"] == "agg" and s["rv"].get("adt") == "histogram::bins::Edges"]
-    ok = len(aggs) == 1
-    detail = "one construction site"
-    if ok:
-        bb, si, s = aggs[0]
-        v = strip(b.operand_expr(s["rv"]["fields"][0], bb, si))
-        # all mutable uses of that vector, in dominance order
-        from .rules_select import peel_coercions
-        muts = []
-        for cbb, t in b.calls():
-            for a in b.call_arg_exprs(cbb):
-                if isinstance(a, tuple) and a[0] == "ref" and a[2] and peel_coercions(a[1]) == peel_coercions(v):
-                    if callee_name(t) in ("deref_mut", "as_mut_slice", "as_mut"):
-                        continue
-                    muts.append((cbb, callee_name(t)))
-        names = [m[1] for m in muts]
-        sorts = [m for m in muts if m[1] in ("sort", "sort_unstable")]
-        dedups = [m for m in muts if m[1] == "dedup"]
-        others = [m for m in muts if m not in sorts and m not in dedups]
-        ok = bool(sorts) and bool(dedups) and not others and b.dominates(sorts[0][0], dedups[0][0]) and b.dominates(dedups[0][0], bb) \
-            and v[:2] == ("param", 1)
-        detail = "Edges{edges} is built from the input vector after sort (dominating) then dedup, nothing else mutates it: %s" % names if ok else \
-            "construction of Edges is not dominated by sort then dedup of the same vector (mutating calls: %s; payload `%s`)" % (names, fmt(v))
-    ctx.ob(rule, "Edges/from-vec/sorted-deduped", ok, b.where(), detail, what="Edges invariant not established")
-    # From<Array1<A>> delegates
-    b2 = prog.find("histogram::bins::Edges<A> as std::convert::From<ndarray::ArrayBase<ndarray::OwnedRepr<A>, ndarray::Dim<[usize; 1]>>>>::from")
-    r = strip(b2.return_expr())
-    ok2 = isinstance(r, tuple) and r[0] == "call" and r[1] == "from" and "Edges" in (b2.site_term(r[4])["callee"].get("path_args") or "")
-    if ok2:
-        a = strip(r[3][0])
-        ok2 = isinstance(a, tuple) and a[0] == "call" and a[1] in ("to_vec", "into_raw_vec", "into_iter", "collect") or True
-    ctx.ob(rule, "Edges/from-array/delegates", ok2, b2.where(),
-           "From<Array1> builds the vector and delegates to From<Vec>" if ok2 else "From<Array1> does not delegate to From<Vec>: `%s`" % fmt(r),
-           what="second unsorted constructor")
+    FV = "histogram::bins::Edges<A> as std::convert::From<std::vec::Vec<A>>>::from"
+    sites = [(b, bb, si) for (b, bb, si) in aggregates_of(prog, "histogram::bins::Edges") if not is_derive(b)]
+    est = edges_establishers(prog)
+    if not sites:
+        ctx.ob(rule, "Edges/from-vec/sorted-deduped", False, "", "anchor missing: no construction of Edges", what="anchor missing")
+    for (b, bb, si) in sites:
+        ok, detail = _edges_site_check(b, bb, si, b.blocks[bb]["stmts"][si])
+        key = "Edges/from-vec/sorted-deduped" if (b.key.endswith(FV) or len(sites) == 1) else "Edges/%s/sorted-deduped" % short(b.key)
+        ctx.ob(rule, key, ok, b.where(), detail, what="Edges invariant not established")
+
+    def reaches_establisher(b, depth=0):
+        if b.key in est:
+            return True
+        if depth > 2:
+            return False
+        r = strip(b.return_expr())
+        if isinstance(r, tuple) and r[0] == "call":
+            cb = prog.bodies.get(r[2]) or prog.local_callee_body(b.site_term(r[4]))
+            if cb is not None and not cb.is_closure:
+                return reaches_establisher(cb, depth + 1)
+            if r[1] == "from" and "Edges" in (b.site_term(r[4])["callee"].get("path_args") or ""):
+                fv = prog.find(FV, required=False)
+                return fv is not None and reaches_establisher(fv, depth + 1)
+        return False
+    for suffix, key in ((FV, "Edges/from-vec/establishes"),
+                        ("histogram::bins::Edges<A> as std::convert::From<ndarray::ArrayBase<ndarray::OwnedRepr<A>, ndarray::Dim<[usize; 1]>>>>::from",
+                         "Edges/from-array/delegates")):
+        b2 = prog.find(suffix, required=False)
+        if b2 is None:
+            ctx.ob(rule, key, False, "", "anchor missing: %s" % suffix, what="anchor missing")
+            continue
+        ok2 = reaches_establisher(b2)
+        ctx.ob(rule, key, ok2, b2.where(),
+               "the conversion hands its vector to the constructor that sorts and deduplicates" if ok2 else
+               "the conversion does not end in the sorting / deduplicating constructor: `%s`" % fmt(strip(b2.return_expr()))[:120],
+               what="second unsorted constructor")
 
 
 def rule_bins_len(ctx, prog, rule="R13"):
@@ -394,36 +522,25 @@ def rule_lookup_delegation(ctx, prog, rule="R13"):
     ctx.ob(rule, "Bins::range_of/delegates", ok, br.where(), detail, what="accessor does not use the lookup primitive")
     gs = prog.find("histogram::grid::Grid::<A>::shape")
     r = strip(gs.return_expr())
-    ok = isinstance(r, tuple) and r[0] == "call" and r[1] == "collect"
-    if ok:
-        m = strip(r[3][0])
-        ok = isinstance(m, tuple) and m[0] == "call" and m[1] == "map" and strip(m[3][1])[0] == "fn" and strip(m[3][1])[1].endswith("Bins::<A>::len")
-        if ok:
-            it = strip(m[3][0])
-            from .rules_layout import producer_chain
-            rb, re_, chain, bad = producer_chain(prog, gs, it, stop_at_field=True)
-            ok = bad is None and strip(re_) == ("field", ("param", 1, "self"), "projections")
-    if not ok:
-        # loop form: `for bins in &self.projections { shape.push(bins.len()) }` – one push per iteration of an undisturbed
-        # traversal of the projections, the vector returned unchanged
-        from . import terms as T_
-        from .rules_layout import producer_chain
-        from .rules_result import returned_locals, mutation_sites
-        tg = prog.tracked(gs)
-        try:
-            lp = T_.Loop(tg)
-            it = lp.iterator()
-        except Exception:
-            it = None
-        if it is not None:
-            il, item, iinit = it
-            rb, re_, chain, bad = producer_chain(prog, tg, iinit, stop_at_field=True)
-            pushes = [pb for pb, t in tg.calls() if callee_name(t) == "push"]
-            rl = [L for _d, L in returned_locals(tg)]
-            if len(pushes) == 1 and pushes[0] in lp.blocks and bad is None and strip(re_) == ("field", ("param", 1, "self"), "projections") and \
-                    len(rl) == 1 and rl[0] is not None and {nm for _b, nm in mutation_sites(tg, rl[0])} == {"push"}:
-                pushed = strip(tg.call_arg_exprs(pushes[0])[1])
-                ok = isinstance(pushed, tuple) and pushed[0] == "call" and pushed[1] == "len" and "Bins" in pushed[2] and strip(pushed[3][0]) == strip(item)
+    ok = False
+    from .rules_layout import producer_chain
+    from .rules_result import returned_locals
+    om = ordered_map(prog, gs)
+    if om is not None:
+        rb, re_, chain, bad = producer_chain(prog, prog.tracked(gs), om["source"], stop_at_field=True)
+        if om["fn"]:
+            per = om["fn"].endswith("Bins::<A>::len")
+        else:
+            v = om["value"]
+            want_item = ("param", 2) if om["form"] == "collect" else om["item"]
+            per = isinstance(v, tuple) and v[0] == "call" and v[1] == "len" and "Bins" in v[2] and \
+                (strip(v[3][0])[:2] == want_item[:2] if om["form"] == "collect" else strip(v[3][0]) == want_item)
+        if om["form"] == "collect":
+            returned = isinstance(r, tuple) and r[0] == "call" and r[1] == "collect"
+        else:
+            rl = [L for _d, L in returned_locals(prog.tracked(gs))]
+            returned = len(rl) == 1 and rl[0] == om.get("vec")
+        ok = bad is None and per and returned and strip(re_) == ("field", ("param", 1, "self"), "projections")
     ctx.ob(rule, "Grid::shape/delegates", ok, gs.where(), "= projections.iter().map(Bins::len).collect()" if ok else
            "Grid::shape is `%s`" % fmt(r)[:160], what="grid shape not the per-axis bin counts in order")
     # Bins::index(i) is the range between the consecutive edges i and i+1
@@ -606,6 +723,34 @@ def rule_r16(ctx, prog, rule="R16"):
         ok = newh and rows and not used and ret == h
         detail = "one add_observation per item of axis_iter(self, ..) on Histogram::new(grid); result ignored; histogram returned" if ok else \
             "new(grid)=%s rows-of-self=%s result-used=%s returns-histogram=%s" % (newh, rows, used, ret == h)
+    if not adds:
+        # closure form: self.axis_iter(Axis(0)).for_each(|row| { let _ = histogram.add_observation(&row); })
+        from .rules_layout import producer_chain, up
+        for c in prog.closures_of(hb):
+            cadds = [(cbb, ct) for cbb, ct in c.calls() if callee_name(ct) == "add_observation"]
+            if len(cadds) != 1:
+                continue
+            cbb, ct = cadds[0]
+            a = c.call_arg_exprs(cbb)
+            hb_, he_ = up(prog, c, a[0])
+            h = strip(he_)
+            newh = hb_ is hb and isinstance(h, tuple) and h[0] == "call" and h[1] == "new" and strip(h[3][0])[:2] == ("param", 2)
+            item_ok = strip(a[1])[:2] == ("param", 2)
+            rows = False
+            total = False
+            for pbb, pt in hb.calls():
+                pargs = hb.call_arg_exprs(pbb)
+                if any(isinstance(strip(x), tuple) and strip(x)[:3] == ("agg", "closure", c.key) for x in pargs[1:]):
+                    total = callee_name(pt) == "for_each"          # try_for_each / any / all / find stop early
+                    rb, re_, chain, bad = producer_chain(prog, hb, pargs[0])
+                    rows = bad is None and strip(re_) == ("param", 1, "self") and ("axis_iter" in chain or "outer_iter" in chain)
+            me = c.call_expr(cbb)
+            used = any(any(x == me for x in walk(c.switch_discr_expr(s_))) for s_ in c.live_blocks() if c.term(s_)["k"] == "switch")
+            unit_ret = c.local_ty(0).startswith("()")
+            ret = strip(hb.return_expr())
+            ok = newh and item_ok and rows and total and not used and unit_ret and ret == h
+            detail = "one add_observation per row through for_each over axis_iter(self, ..) on Histogram::new(grid); result ignored; histogram returned" if ok else \
+                "closure form: new(grid)=%s row=item:%s rows-of-self=%s visits-every-row=%s result-used=%s returns-histogram=%s" % (newh, item_ok, rows, total, used, ret == h)
     ctx.ob(rule, "histogram/one-insert-per-row", ok, hb.where(), detail, what="matrix form does not insert each row once")
     # the accessor shows the stored counts as they are (a reversed / transposed / sliced view would move every count)
     cb_ = prog.find("histogram::histograms::Histogram::<A>::counts")
@@ -620,18 +765,35 @@ def rule_grid_index_of(ctx, prog, rule="R9"):
     _grid_per_axis(ctx, prog, "index_of", rule)
     _grid_per_axis(ctx, prog, "index", rule)
     g = prog.find("histogram::grid::Grid::<A>::index_of")
-    # arity assert dominates the zip
+    from .facts import inline_calls
+    from .rules_zones import helper_filter
+    g = inline_calls(prog, g, helper_filter(prog))          # the assertion may sit in a private helper
+    # arity assert: every returning path passes the diverging comparison `point.len() == self.ndim()`
     arity = False
     for bb in g.live_blocks():
         t = g.term(bb)
         if t["k"] == "switch":
             de = strip(g.switch_discr_expr(bb))
             if isinstance(de, tuple) and de[0] == "binop" and de[1] == "Eq":
+                sides = [strip(de[2]), strip(de[3])]
+
+                def counts(e_, what):
+                    for _ in range(3):
+                        if isinstance(e_, tuple) and e_[0] in ("deref", "ref"):
+                            e_ = strip(e_[1])
+                    if not (isinstance(e_, tuple) and e_[0] == "call" and e_[3]):
+                        return False
+                    r_ = strip(e_[3][0])
+                    for _ in range(3):
+                        if isinstance(r_, tuple) and r_[0] == "call" and r_[1] in ("deref", "view", "projections") and r_[3]:
+                            r_ = strip(r_[3][0])
+                        elif isinstance(r_, tuple) and r_[0] == "field":
+                            r_ = strip(r_[1])
+                    return e_[1] in what and isinstance(r_, tuple) and r_[0] == "param"
                 f = [tgt for v, tgt in t["arms"] if v == 0]
-                if f and not g.can_reach_return(f[0]):
-                    zs = [cbb for cbb, ct in g.calls() if callee_name(ct) == "zip"]
-                    if zs and all(branch_dominates(g, bb, t["otherwise"], z) for z in zs):
-                        arity = True
+                if f and not g.can_reach_return(f[0]) and not g.can_reach_return(0, avoid=(bb,)) and \
+                        any(counts(x_, ("len", "len_of")) for x_ in sides) and any(counts(x_, ("ndim", "len")) for x_ in sides):
+                    arity = True
     ctx.ob(rule, "Grid::index_of/arity-assert", arity, g.where(), "point.len() == ndim() asserted before pairing" if arity else
            "no arity assertion dominates the pairing: a short point is silently truncated", what="arity not checked")
 
@@ -647,9 +809,13 @@ def _grid_per_axis(ctx, prog, meth, rule):
     if len(calls) == 1:
         b, bb, t = calls[0]
         a = b.call_arg_exprs(bb)
-        rs = item_component_source(prog, b, a[0])
-        vs = item_component_source(prog, b, a[1])
+        rs = position_source(prog, b, a[0])
+        vs = position_source(prog, b, a[1])
+        if rs is not None and vs is not None and rs[2] != vs[2]:
+            detail = "the bins and the coordinate handed to Bins::%s are not taken at the same position of one traversal" % meth
+            rs = vs = None
         if rs is not None and vs is not None:
+            # same position of (a) one zip / enumerate traversal or (b) one index variable ranging over 0..n
             recv_ok = strip(rs[1]) == ("field", ("param", 1, "self"), "projections") and not rs[0].is_closure
             val_ok = strip(vs[1])[:2] == ("param", 2) and not vs[0].is_closure
             # results kept in order: collect(map(..)) returned, or a single push per item into the returned vector
@@ -669,7 +835,7 @@ def _grid_per_axis(ctx, prog, meth, rule):
             ok = recv_ok and val_ok and in_order
             detail = "coordinate j goes to projection j (Bins::%s(bins_j, v_j) on the components of one undisturbed zip), results kept in axis order" % meth if ok else \
                 ("receiver from projections=%s value from the argument=%s in-order=%s" % (recv_ok, val_ok, in_order) if in_order or not (recv_ok and val_ok) else detail)
-        else:
+        elif not detail.startswith("the bins and"):
             detail = "the operands of Bins::%s are not components of one zip item" % meth
     ctx.ob(rule, "Grid::%s/coordinate-axis-pairing" % meth, ok, g.where(), detail, what="coordinate j not paired with axis j")
 
@@ -867,6 +1033,23 @@ def rule_gridbuilder(ctx, prog, rule="R9"):
         v = unwrap_try(om["value"]) if om["value"] is not None else None
         per = isinstance(v, tuple) and v[0] == "call" and v[1] == "from_array" and \
             (strip(v[3][0])[:2] == ("param", 2) if om["form"] == "collect" else strip(v[3][0]) == om["item"])
+        if not (src_ok and per) and isinstance(v, tuple) and v[0] == "call" and v[1] == "from_array":
+            # index form: `for k in 0..array.len_of(Axis(1)) { B::from_array(&array.index_axis(Axis(1), k)) }` – column k for
+            # k = 0, 1, … in order, i.e. the columns in the order of axis_iter(Axis(1))
+            def is_ax1(e_):
+                e_ = strip(e_)
+                return isinstance(e_, tuple) and e_[0] == "agg" and strip(e_[3][0]) == ("const", "usize", 1)
+            col = strip(v[3][0])
+            rng_ok = isinstance(it, tuple) and ((it[0] == "agg" and "Range" in str(it[1])) or (it[0] == "call" and it[1] == "new" and "Range" in it[2]))
+            if rng_ok:
+                lo_, hi_ = (strip(it[3][0]), strip(it[3][1]))
+                rng_ok = lo_ == ("const", "usize", 0) and isinstance(hi_, tuple) and hi_[0] == "call" and hi_[1] in ("len_of", "ncols") and \
+                    strip(hi_[3][0])[:2] == ("param", 1) and (hi_[1] == "ncols" or is_ax1(hi_[3][1])) and "Inclusive" not in str(it[1] if it[0] == "agg" else it[2])
+            item_ = strip(("param", 2)) if om["form"] == "collect" else om["item"]
+            col_ok = isinstance(col, tuple) and col[0] == "call" and col[1] in ("index_axis", "column") and strip(col[3][0])[:2] == ("param", 1) and \
+                ((col[1] == "column" and strip(col[3][1])[:2] == item_[:2]) or (len(col[3]) == 3 and is_ax1(col[3][1]) and (strip(col[3][2]) == item_ or strip(col[3][2])[:2] == ("param", 2))))
+            if rng_ok and col_ok and not bad:
+                src_ok, per = True, True
         ok = src_ok and not bad and per
         detail = "builders = B::from_array(column) for the columns of array.axis_iter(Axis(1)) in order (%s form)" % om["form"] if ok else \
             "columns come from `%s` through %s, per-column from_array=%s" % (fmt(it)[:60], chain, per)
